@@ -101,7 +101,7 @@ Definition creators_of (A : list N) (c : cow) : list (N * N) :=
 
 (* application rows, in a fixed order, for the applications [APPS] (ascending) and box names 1..4:
      [3; app; creator]                                   getCreator
-     [1; addr; app; gsu; gsb; lsu; lsb; pages; sponsor]  GetAppParams
+     [1; addr; app; gsu; gsb; lsu; lsb; pages; sponsor; ForeignBoxReads; FamilyBoxAccess]  GetAppParams
      [2; addr; app; su; sb]                              GetAppLocalState (its schema)
      [4; addr; app; global; nu; nb]                      allocated + getStorageCounts
      [5; app; name; size]                                GetBox *)
@@ -111,7 +111,8 @@ Definition appobs_of (U APPS : list N) (c : cow) : list (list N) :=
     (match get_app_creator c i with Some cr => [[3; i; cr]] | None => [] end) ++
     flat_map (fun a =>
       (match get_appparams c a i with
-       | Some p => [[1; a; i; fst (app_gs p); snd (app_gs p); fst (app_ls p); snd (app_ls p); app_pages p; app_sponsor p]]
+       | Some p => [[1; a; i; fst (app_gs p); snd (app_gs p); fst (app_ls p); snd (app_ls p); app_pages p; app_sponsor p;
+                     b2n (app_fbr p); b2n (app_fba p)]]
        | None => [] end) ++
       (match get_applocal c a i with Some sch => [[2; a; i; fst sch; snd sch]] | None => [] end)) U ++
     flat_map (fun a =>
@@ -212,6 +213,7 @@ Definition dec_appop (t : term) : option appop :=
     else if String.eqb k "gd" then match a with [key] => Some (OGDel key) | _ => None end
     else if String.eqb k "lp" then match a with [acct; key; ib] => Some (OLPut acct key (negb (ib =? 0))) | _ => None end
     else if String.eqb k "ld" then match a with [acct; key] => Some (OLDel acct key) | _ => None end
+    else if String.eqb k "ps" then match a with [field; v] => Some (OParamSet field (negb (v =? 0))) | _ => None end
     else if String.eqb k "fail" then match a with [] => Some OFail | _ => None end
     else None
   | _ => None
@@ -367,9 +369,10 @@ Fixpoint base_of_rows (rows : list (list N)) (b : base) : base :=
   | row :: r =>
     let b1 :=
       match row with
-      | [1; a; i; gsu; gsb; lsu; lsb; pages; sp] =>
+      | [1; a; i; gsu; gsb; lsu; lsb; pages; sp; fbr; fba] =>
         mkBase (b_accts b) (b_txids b) (b_counter b) (b_assets b)
-               (set_bapp (b_apps b) (a, i) (fun v => (Some (mkApp (gsu, gsb) (lsu, lsb) pages sp), snd v))) (b_store b) (b_boxes b)
+               (set_bapp (b_apps b) (a, i) (fun v => (Some (mkApp (gsu, gsb) (lsu, lsb) pages sp (negb (fbr =? 0)) (negb (fba =? 0))), snd v)))
+               (b_store b) (b_boxes b)
       | [2; a; i; su; sb] =>
         mkBase (b_accts b) (b_txids b) (b_counter b) (b_assets b)
                (set_bapp (b_apps b) (a, i) (fun v => (fst v, Some (su, sb)))) (b_store b) (b_boxes b)
@@ -686,15 +689,16 @@ Definition model_obs (k : blockcase) : term :=
         end]
   end.
 
-(* the reward units handed to StartEvaluator are those of the enumerated ledger *)
+(* the reward units handed to StartEvaluator are those of the enumerated ledger (AccountTotals
+   is C12's subject; a mismatch breaks the correspondence here, and as soon as the rewards level
+   rises it breaks conservation: the pool pays for units no account holds -- spec_ok_c18) *)
 Definition ru_ok (k : blockcase) : bool := k_ru k =? table_reward_units (k_P k) (k_base k).
 
 Definition check_with (spec nontriv : blockcase -> bool) (t : term) : term :=
   match dec_case t with
   | None => v_parse
   | Some k =>
-    if negb (ru_ok k) then v_parse else
-    verdict (spec k) (model_agrees k) (nontriv k) (model_obs k)
+    verdict (spec k) (model_agrees k && ru_ok k) (nontriv k) (model_obs k)
   end.
 
 Definition check_c18 : term -> term := check_with spec_ok_c18 nontrivial_c18.
